@@ -69,6 +69,17 @@ def main():
                     print(r.stderr[-1500:])
         finally:
             shutil.rmtree(tmp, ignore_errors=True)
+    # remember the outcome (committed: DESIGN.md section 8.2 is generated from it)
+    resfile = os.path.join(HERE, "tools", "mutation_results.json")
+    try:
+        results = json.load(open(resfile))
+    except Exception:
+        results = {}
+    for mid, prop, rc, note in rows:
+        if prop in ("PATTERN", "") or not str(prop).startswith("C"):
+            continue
+        results[f"{mid}/{prop}"] = {"rc": rc, "note": note, "tier": args.tier, "seed": args.seed}
+    json.dump(results, open(resfile, "w"), indent=1, sort_keys=True)
     bad = 0
     for mid, prop, rc, note in rows:
         flag = "caught" if rc == 1 else "MISSED"
